@@ -10,6 +10,8 @@
 #include "stats.h"
 #include <unistd.h>
 
+extern "C" void _bus_verif_preset_unique_name_counter(int major, int minor);
+
 using namespace vp;
 
 static bool is_token(const Msg& m, int* writer) {
@@ -25,7 +27,12 @@ static std::pair<long, int> run_history(const uint8_t* data, size_t size, bool c
   Hist h("C03");
   BusLimits lim;
   h.start(make_config("session", "", lim));
+  // hook H4: sometimes start the (process-global) unique-name counters just below the roll-over of the minor number, so
+  // that the names handed out in this history cross it.  A new bus begins here, so the set of names seen so far restarts too.
+  bool near_wrap = rare(f, 6);
+  if (near_wrap) { Hist::all_uniques.clear(); _bus_verif_preset_unique_name_counter(2 + (int)pick(f, 1000000), 0x7fffffff - (int)pick(f, 5)); }
   int nclients = 2 + (int)pick(f, 4);
+  if (count && near_wrap) stats_class("names:near-rollover");
   // clients 0..nclients-1: connected + authenticated; Hello happens as a history step (clients 0,1 right away)
   for (int i = 0; i < nclients; i++) h.add_client(i < 2);
   int spy = h.add_client(); h.add_rule(spy, "eavesdrop='true'");
